@@ -38,6 +38,9 @@ type Info struct {
 	Prefix      int // 0 none, 1 CB, 2 ED, 3 DD, 4 FD, 5 DDCB, 6 FDCB
 	UsesIndex   bool // reads or writes the index register selected by the prefix
 	Taken       int  // conditional control transfer: 1 taken, 2 not taken, 0 n/a
+	// RLowFree: interrupt acknowledge by push (NMI, IM 1, IM 2): the low seven bits of R may or may not
+	// count the acknowledge cycle; bit 7 and I must be kept
+	RLowFree bool
 }
 
 const (
@@ -779,7 +782,6 @@ func (m *mach) execED() {
 				m.in.Class = "RETI"
 				m.in.RetI++
 				s.PC = m.pop()
-				m.in.IFF1Free = true
 				return
 			}
 		case 6:
